@@ -76,6 +76,9 @@ func c05Files(root string) {
 	must(os.MkdirAll(filepath.Join(root, "Uploads"), 0755))
 	must(os.MkdirAll(filepath.Join(root, "Drop Box"), 0755))
 	must(os.WriteFile(filepath.Join(root, "Drop Box", "secret.txt"), []byte("dropped"), 0644))
+	must(os.MkdirAll(filepath.Join(root, "Drop Box", "inner"), 0755))
+	must(os.WriteFile(filepath.Join(root, "Drop Box", "inner", "deep-secret.txt"), []byte("dropped deeper"), 0644))
+	must(os.MkdirAll(filepath.Join(root, "Uploads", "sub"), 0755))
 	// entries whose stored information fork claims the other kind: the governing privilege follows
 	// what the entry *is* in the file tree, not what client-supplied metadata says
 	must(os.WriteFile(filepath.Join(root, "odd.txt"), []byte("odd"), 0644))
@@ -361,6 +364,13 @@ var c05Kinds = []c05Kind{
 	}, ""},
 	{"upload-file-uploads-dot-item", []int{ref.PUploadFile}, func(x c05Ctx) ref.Tx {
 		return ref.Tx{Type: ref.TUploadFile, Fields: []ref.Fld{ref.FS(ref.FFileName, "new.txt"), ref.F(ref.FFilePath, ref.PathBytes("Uploads", ".")), ref.F32(ref.FTransferSize, 100)}}
+	}, ""},
+	// folders below a drop box / an upload folder belong to it
+	{"list-folder-inside-drop-box", []int{ref.PViewDropBoxes}, func(x c05Ctx) ref.Tx {
+		return ref.Tx{Type: ref.TGetFileNameList, Fields: []ref.Fld{ref.F(ref.FFilePath, ref.PathBytes("Drop Box", "inner"))}}
+	}, "deep-secret.txt"},
+	{"upload-file-uploads-subfolder", []int{ref.PUploadFile}, func(x c05Ctx) ref.Tx {
+		return ref.Tx{Type: ref.TUploadFile, Fields: []ref.Fld{ref.FS(ref.FFileName, "new.txt"), ref.F(ref.FFilePath, ref.PathBytes("Uploads", "sub")), ref.F32(ref.FTransferSize, 100)}}
 	}, ""},
 	{"list-nested-drop-box", []int{ref.PViewDropBoxes}, func(x c05Ctx) ref.Tx {
 		return ref.Tx{Type: ref.TGetFileNameList, Fields: []ref.Fld{ref.F(ref.FFilePath, ref.PathBytes("other", "my drop box"))}}
